@@ -261,13 +261,13 @@ arm_batch!(b2b, aes128_arm_batch22_enc_b2b, crate::Aes128, 16, 21, 22, false);
 arm_batch!(ipc, aes128_arm_batch22_dec_ip, crate::Aes128, 16, 21, 22, true);
 //@ harness name=aes128_arm_batch22_dec_b2b prop=C04,C20 tier=thorough bits=2944 stub=1 est=360 variants=aes:armv8 desc="Aes128 (ARMv8 arm) decrypt_blocks_b2b on 22 blocks equals 22 single-block calls; input unchanged"
 arm_batch!(b2b, aes128_arm_batch22_dec_b2b, crate::Aes128, 16, 21, 22, true);
-//@ harness name=aes128_arm_batch3_enc_ip prop=C04,C20 tier=quick bits=520 stub=1 variants=aes:armv8 est=95 desc="Aes128 (ARMv8 arm): 3 blocks (fewer than the parallel width: tail path only) at a symbolic buffer offset 0..15: encrypt_blocks in place equals three single-block calls; guards unchanged; all keys and contents"
+//@ harness name=aes128_arm_batch3_enc_ip prop=C04,C20 tier=quick bits=520 stub=1 variants=aes:armv8 est=110 desc="Aes128 (ARMv8 arm): 3 blocks (fewer than the parallel width: tail path only) at a symbolic buffer offset 0..15: encrypt_blocks in place equals three single-block calls; guards unchanged; all keys and contents"
 arm_batch!(ip, aes128_arm_batch3_enc_ip, crate::Aes128, 16, 21, 3, false, off_sym);
-//@ harness name=aes128_arm_batch3_enc_b2b prop=C04,C20 tier=quick bits=512 stub=1 variants=aes:armv8 est=45 desc="Aes128 (ARMv8 arm): encrypt_blocks_b2b on 3 blocks equals three single-block calls; input unchanged"
+//@ harness name=aes128_arm_batch3_enc_b2b prop=C04,C20 tier=quick bits=512 stub=1 variants=aes:armv8 est=50 desc="Aes128 (ARMv8 arm): encrypt_blocks_b2b on 3 blocks equals three single-block calls; input unchanged"
 arm_batch!(b2b, aes128_arm_batch3_enc_b2b, crate::Aes128, 16, 21, 3, false);
-//@ harness name=aes128_arm_batch3_dec_ip prop=C04,C20 tier=quick bits=520 stub=1 variants=aes:armv8 est=95 desc="as aes128_arm_batch3_enc_ip, decrypt"
+//@ harness name=aes128_arm_batch3_dec_ip prop=C04,C20 tier=quick bits=520 stub=1 variants=aes:armv8 est=105 desc="as aes128_arm_batch3_enc_ip, decrypt"
 arm_batch!(ip, aes128_arm_batch3_dec_ip, crate::Aes128, 16, 21, 3, true, off_sym);
-//@ harness name=aes128_arm_batch3_dec_b2b prop=C04,C20 tier=quick bits=512 stub=1 variants=aes:armv8 est=45 desc="as aes128_arm_batch3_enc_b2b, decrypt"
+//@ harness name=aes128_arm_batch3_dec_b2b prop=C04,C20 tier=quick bits=512 stub=1 variants=aes:armv8 est=50 desc="as aes128_arm_batch3_enc_b2b, decrypt"
 arm_batch!(b2b, aes128_arm_batch3_dec_b2b, crate::Aes128, 16, 21, 3, true);
 //@ harness name=aes128_arm_batch21_enc_ip prop=C04 tier=thorough bits=2816 stub=1 variants=aes:armv8 est=340 need=12 desc="as aes128_arm_batch22_enc_ip, n = 21 (exactly the parallel width, empty tail)"
 arm_batch!(ipc, aes128_arm_batch21_enc_ip, crate::Aes128, 16, 21, 21, false);
